@@ -5,6 +5,7 @@ CONSTANTS
   HiddenAsZero = TRUE
   ForgetLink = FALSE
   ShowHidden = FALSE
+  Rehide = TRUE
   MaxFrames = 2
 SPECIFICATION MSpec
 INVARIANT FrameAlwaysOK
